@@ -16,12 +16,12 @@ func initVariableDeclarationNode() {
 			argName := args[1].MustReference().(ast.IdentifierNode)
 
 			var argTypeNode ast.TypeNode
-			if !args[2].IsUndefined() {
+			if !args[2].IsUndefined() && !args[2].IsNil() {
 				argTypeNode = args[2].MustReference().(ast.TypeNode)
 			}
 
 			var argInitialiser ast.ExpressionNode
-			if !args[3].IsUndefined() {
+			if !args[3].IsUndefined() && !args[3].IsNil() {
 				argInitialiser = args[3].MustReference().(ast.ExpressionNode)
 			}
 
